@@ -243,6 +243,8 @@ func (c *ChunkComposer) RunLoop(reader io.Reader, cb OnCompleteMessage) error {
 						return base.NewErrRtmpShortBuffer(int(aggregateStream.header.MsgLen), int(stream.msg.Len()), "parse rtmp aggregate sub message body")
 					}
 					aggregateStream.msg.buff = nazabytes.NewBufferRefBytes(stream.msg.buff.Peek(int(aggregateStream.header.MsgLen)))
+					// NewBufferRefBytes的写位置为0，需要Flush后，上层才能读到sub message的包体
+					aggregateStream.msg.Flush(aggregateStream.header.MsgLen)
 					stream.msg.Skip(aggregateStream.header.MsgLen)
 
 					// sub message回调给上层
